@@ -34,8 +34,11 @@ OptionsOK(e) ==
     /\ <<e.ep, e.eq>> \in {<<0, 1>>} \cup EpsSet
     /\ (e.ep > 0 => e.solver \in {"hals", "fista"})
 
+\* magnitude: the solver was given 4^sa G, 2^(sa+sb) B (penalties, start and absolute options scaled with them) and
+\* the logged solution was divided by 2^(sb-sa); by NNLS!ScaleInvariant it must be the solution of the unscaled problem
 ExactInDomain(e) ==
     /\ e.solver \in Solvers
+    /\ e.sa \in MagSet /\ e.sb \in MagSet /\ e.dt = "float64"
     /\ OptionsOK(e)
     /\ (e.ep > 0 => e.G \notin ExtraG2)
     /\ <<e.p1, e.p2, e.q>> \in Penalties
@@ -66,24 +69,32 @@ ExactVerdict(e) ==
 KktInDomain(e) ==
     /\ e.solver \in Solvers
     /\ OptionsOK(e) /\ e.ep = 0
+    /\ e.dt \in {"float64", "float32"}
+    /\ IF e.dt = "float32" THEN e.sa \in {-15, 0} /\ e.sb \in {-15, 0} ELSE e.sa \in MagSet /\ e.sb \in MagSet
     /\ e.n \in 4..8 /\ e.k \in 1..5
     /\ <<e.p1, e.p2, e.q>> \in Penalties
     /\ (e.solver \in {"active_set", "admm"} => e.p1 = 0 /\ e.p2 = 0)
     /\ e.cond \in 1..CondMax
 
-KktVerdict(e) ==
-    IF ~KktInDomain(e) THEN "InDomain"
-    ELSE IF e.raised THEN "Raised"
+KktVerdictT(e, ZT, KT) ==
+    IF e.raised THEN "Raised"
     ELSE IF e.size # e.k * e.n \/ ~IsCols(e.x, e.k, e.n) \/ ~IsCols(e.g, e.k, e.n) THEN "Shape"
     ELSE IF ~AllFin(e.x) \/ ~AllFin(e.g) THEN "Finite"
     ELSE IF Constrained(e) /\ e.nlow # 0 THEN "NonNeg"
     \* unconstrained: stationarity everywhere
-    ELSE IF ~Constrained(e) /\ (\E j \in 1..e.k : \E i \in 1..e.n : AbsN(e.g[j][i]) > KktTol) THEN "Stationary"
+    ELSE IF ~Constrained(e) /\ (\E j \in 1..e.k : \E i \in 1..e.n : AbsN(e.g[j][i]) > KT) THEN "Stationary"
     \* constrained: dual feasibility at the bound, stationarity (hence complementarity) off the bound
-    ELSE IF Constrained(e) /\ (\E j \in 1..e.k : \E i \in 1..e.n : e.x[j][i] <= ZeroTol /\ e.g[j][i] < -KktTol) THEN "DualFeasible"
-    ELSE IF Constrained(e) /\ (\E j \in 1..e.k : \E i \in 1..e.n : e.x[j][i] > ZeroTol /\ AbsN(e.g[j][i]) > KktTol) THEN "Stationary"
-    ELSE IF e.nzr /\ e.zero_rows # 0 /\ (\E j \in 1..e.k : \E i \in 1..e.n : e.x[j][i] > ZeroTol) THEN "NonzeroRows"
+    ELSE IF Constrained(e) /\ (\E j \in 1..e.k : \E i \in 1..e.n : e.x[j][i] <= ZT /\ e.g[j][i] < -KT) THEN "DualFeasible"
+    ELSE IF Constrained(e) /\ (\E j \in 1..e.k : \E i \in 1..e.n : e.x[j][i] > ZT /\ AbsN(e.g[j][i]) > KT) THEN "Stationary"
+    ELSE IF e.nzr /\ e.zero_rows # 0 /\ (\E j \in 1..e.k : \E i \in 1..e.n : e.x[j][i] > ZT) THEN "NonzeroRows"
     ELSE "ok"
+
+\* float32 runs (measured tier only): single precision (eps 6e-8) times cond <= 60 times |G| <= ~100
+ZeroTol32 == 1000       \* 1e-3
+KktTol32 == 5000        \* 5e-3
+KktVerdict(e) ==
+    IF ~KktInDomain(e) THEN "InDomain"
+    ELSE KktVerdictT(e, IF e.dt = "float32" THEN ZeroTol32 ELSE ZeroTol, IF e.dt = "float32" THEN KktTol32 ELSE KktTol)
 
 Verdict(e) == IF e.kind = "exact" THEN ExactVerdict(e)
               ELSE IF e.kind = "kkt" THEN KktVerdict(e)
